@@ -71,7 +71,7 @@ func (e *emitter) wantTypeSet(in input, o Obs) {
 	}
 }
 
-// emitTypeSet writes cases_override_0.v, cases_params_0.v (coq/Corr/CorrC06.v: override_check, params_check) and
+// emitTypeSet writes cases_alias_0.v (alias_check; generator in genalias.go), cases_override_0.v, cases_params_0.v (coq/Corr/CorrC06.v: override_check, params_check) and
 // cases_equality_0.v, cases_like_0.v (equality_check, like_check; generators in genhier.go).
 func (e *emitter) emitTypeSet(cfg *lib.Config, res *lib.Result) {
 	files := []struct {
@@ -85,6 +85,13 @@ func (e *emitter) emitTypeSet(cfg *lib.Config, res *lib.Result) {
 		{"equality", "c06qcase", "equality_model", "equality_mismatches cases", "Model.ResolveHier", equalityCodes,
 			func(o Obs) string { return " " + lib.GStr(o.Aux["including_parent"]) }},
 		{"like", "c06lcase", "like_model", "like_mismatches cases", "Model.ResolveHier", likeCodes, nil},
+		{"alias", "c06acase", "alias_model", "alias_mismatches cases", "Model.ResolveAlias", aliasCodes,
+			func(o Obs) string {
+				if h := o.Aux["alias_heads"]; h != "" && h != "fault" && o.Class == "ok" {
+					return " " + h
+				}
+				return " (@nil nat)"
+			}},
 	}
 	for _, f := range files {
 		cf := &lib.CasesFile{Imports: []string{"Model.Base", f.model, "Corr.CorrC06"}, Typ: f.typ,
